@@ -85,4 +85,31 @@ CLAIMS.update({
                 note=_TB),
 })
 
+CLAIMS.update({
+    'C09': dict(engine='TLC+jsv', design_ref='DESIGN.md section 6 (C09), 4.6',
+                technique='Canonical.tla (UTF-16 member order) + Decimal/BigNat.tla: TLC certifies every number rendering with exact integer arithmetic (nearest double, shortest and closest digits, Number::toString layout); all member permutations of bounded I-JSON values replayed; recorded canonicalizations validated by TraceCanon',
+                text='The number rules of RFC 8785 are decided by certificate checking inside TLC (arbitrary-precision naturals written in TLA+): the harness supplies spelling, claimed nearest double and the rendering produced by the code; TLC proves the double is the correctly rounded one and the rendering is the ECMAScript shortest round-trip form. Member order is specified on UTF-16 code units; TLC enumerates every permutation of bounded values whose keys straddle the UTF-16 / code-point divergence.',
+                note=_TB + 'The claimed double comes from str::parse::<f64> but is not trusted (IsNearestDouble is part of the certificate; a wrong certificate is a tool error).'),
+    'C10': dict(engine='TLC+jsv', design_ref='DESIGN.md section 6 (C10)',
+                technique='idempotence, permutation invariance and strict ordering are TLC invariants of MC_Canonical; meaning-preserving rewritings (member shuffles, exact number respellings, alternative escapes, whitespace) are validated by TraceCanon (MeaningEq => identical canonical bytes), plus index consistency of the result',
+                text='For every permutation of the bounded values the canonical text must equal the base document\'s; recorded pairs (document, rewriting) are proved meaning-equal by TLC with exact arithmetic and must have byte-identical output; second application must be the identity; the key index of every canonicalized object (hook) must be the index of its entries.',
+                note=_TB),
+    'C16': dict(engine='TLC+jsv', design_ref='DESIGN.md section 6 (C16), 4.8',
+                technique='SerdeSer.tla: encoding of serde data-model terms; 5080 TLC-enumerated terms drive the real Serializer and serde_json\'s through a generic Serialize impl; instances of a derive family are recorded (term, Value, serde_json value, float certificates, round trips) and validated by TraceSerde',
+                text='The serializer is specified on data-model terms (externally tagged variants, key restrictions, insert semantics, the number-token handshake). Every small term is replayed into json-syntax (must equal the specification) and serde_json (same shape). For instances of a derive-annotated family TLC validates the recorded Value against the specification applied to the term the type really emits, certifies every float spelling with exact arithmetic, compares shapes with serde_json, and the three round trips must give back the datum bit-exactly.',
+                note=_TB + 'Round-trip equality d = from_value(to_value d) is evaluated by the harness with PartialEq plus Debug-string equality (bit exact for finite floats).'),
+    'C17': dict(engine='TLC+jsv', design_ref='DESIGN.md section 6 (C17)',
+                technique='SerValue (identity up to Insert-collapse of duplicate keys) and number preservation (same 64-bit integer, else same double by certificate) checked by TraceSerde on recorded to_value / from_value / serde_json::from_str runs; the two number classes named by the property and the number-token key are known findings by class predicate',
+                text='Recorded serializations of generated Values must equal SerValue(v); recorded deserializations (from a Value, from JSON text through serde_json) must keep the structure with every 64-bit integer intact and every other number denoting the same double (certificates checked by TLC).',
+                note=_TB + 'Known findings K1, K2 (named by the property) and K4 are matched by class predicates evaluated in TLC.'),
+    'C18': dict(engine='TLC+jsv', design_ref='DESIGN.md section 6 (C18)',
+                technique='SerdeJson.tla round-trip law checked by TLC and replayed; recorded conversions of generated serde_json / json-syntax values (all three number classes, u64::MAX, i64::MIN, -0.0, subnormals, random-bit doubles, magnitudes outside the double range) validated by TraceSerde; panics are data',
+                text='ToSJ(FromSJ(s)) = s is an invariant of the bounded model and every bounded serde_json value is converted both ways by the real code; generated values in both directions are recorded and validated (equality for serde_json round trips; same integer or same double by certificate, up to member order, for json-syntax round trips; no panic).',
+                note=_TB),
+    'C19': dict(engine='TLC+jsv+rustc', design_ref='DESIGN.md section 6 (C19), 4.9',
+                technique='JsonMacro.tla: the macro as a token muncher (one action per macro rule); TLC checks MacroValue(Tokens d) = value of Run(Text d) for every bounded decorated document and prints them; the harness emits them as Rust source, compiles against the current tree and compares with Value::parse_str',
+                text='Every enumerated json! invocation (trailing commas, literal / parenthesized / expression keys, duplicate keys, suffixed integer literals at their bounds, negative and float literals, expression values, nesting) must compile and build the value that parsing the same text yields.',
+                note=_TB + 'Macro expansion itself is performed by rustc.'),
+})
+
 NOT_CLAIMED = {}
